@@ -292,6 +292,72 @@ def extension_opt(p1, p2, mat, gap):
     return int(sc.max())
 
 
+def extension_need(p1, p2, mat, gap):
+    """(optimum O of the anchored extension, smallest drop-off threshold that provably cannot
+    bind).  Documented rule: the extension stops where the score "falls more than `threshold`
+    below the maximum score found".  A table cell can only be compared with maxima found in
+    cells computed before it, i.e. cells that do not depend on it: every cell except its strict
+    successors.  So with ceiling(c) = best score of any such cell (never more than O), a path
+    whose prefix ending in cell c scores >= ceiling(c) - threshold for all its cells can
+    never be cut, whatever the order in which the table is explored; if one OPTIMAL path has
+    that property the optimum must be found.
+    need = min over optimal paths of max over their cells of (ceiling(c) - prefix score).
+    Linear penalties: ceiling from the exact per-cell optima (global optimum of the two
+    prefixes).  Affine penalties (three scores per cell): the coarser ceiling O is used."""
+    n, m = len(p1), len(p2)
+    sp = space(n, m, "prefix")
+    sc = sp.scores(p1, p2, mat, gap, True)
+    opt = int(sc.max())
+    if is_affine(gap):
+        ceil = [[opt] * (m + 1) for _ in range(n + 1)]
+    else:
+        best = [[brute(p1[:i], p2[:j], mat, gap, "global")[0] for j in range(m + 1)] for i in range(n + 1)]
+        ceil = [[max(best[a][b] for a in range(n + 1) for b in range(m + 1)
+                     if not (a >= i and b >= j) or (a == i and b == j))
+                 for j in range(m + 1)] for i in range(n + 1)]
+    need = None
+    for k in np.nonzero(sc == opt)[0]:
+        t = sp.tpl[k]
+        worst = 0
+        i = j = 0
+        for q in range(1, len(t) + 1):
+            col = t[q - 1]
+            if col[0] != -1:
+                i += 1
+            if col[1] != -1:
+                j += 1
+            d = ceil[i][j] - score_cols(t[:q], p1, p2, mat, gap, True)
+            if d > worst:
+                worst = d
+        if need is None or worst < need:
+            need = worst
+    return opt, need
+
+
+def seeded_opt_need(s1, s2, mat, gap, seed, direction, cache=None):
+    """(best score of an alignment that pairs seed=(i0, j0) and extends only in the requested
+    direction(s), smallest threshold that provably cannot bind).  `cache`: dict for the
+    per-region results (valid for one matrix)."""
+    i0, j0 = seed
+    total = mat[s1[i0]][s2[j0]]
+    need = 0
+    regions = []
+    if direction in ("both", "upstream"):
+        regions.append((tuple(reversed(s1[:i0])), tuple(reversed(s2[:j0]))))
+    if direction in ("both", "downstream"):
+        regions.append((tuple(s1[i0 + 1:]), tuple(s2[j0 + 1:])))
+    for p1, p2 in regions:
+        k = (p1, p2, gap)
+        r = cache.get(k) if cache is not None else None
+        if r is None:
+            r = extension_need(p1, p2, mat, gap)
+            if cache is not None:
+                cache[k] = r
+        total += r[0]
+        need = max(need, r[1])
+    return total, need
+
+
 def seeded_opt(s1, s2, mat, gap, seed, direction):
     """Best score of an alignment that pairs seed=(i0, j0) and extends only in the
     requested direction(s)."""
